@@ -1,7 +1,8 @@
 (* C13 - every expression rexpy returns is anchored, there are never more expressions than distinct
    examples (none for an empty input), and tagging changes only the grouping. *)
 From Coq Require Import ZArith List Bool.
-From Tdda Require Import Base.Sexp Base.Str Rexpy.Chars Rexpy.Pipeline Rexpy.PipelineProofs.
+From Tdda Require Import Base.Sexp Base.Str Rexpy.Chars Rexpy.Pipeline Rexpy.PipelineProofs Rexpy.Sem
+     Rexpy.OracleCheck Rexpy.RefineProofs Rexpy.BatchProofs.
 Import ListNotations.
 Open Scope Z_scope.
 
@@ -30,6 +31,16 @@ Theorem C13_tag_only_wraps : forall out full e f r,
   fragment2re out full e true f = Ok (if f_fixed f then r else capture_group r).
 Proof. exact fragment_tag_only_wraps. Qed.
 Print Assumptions C13_tag_only_wraps.
+
+(* every refined pattern of a batch extraction matches at least one of the working examples (at the level of what
+   its fragments denote; hypotheses as for C03_batch_covers, checked executably on every real run) *)
+Theorem C13_each_matches_some : forall ct o e stripped gt ex merged rex,
+  batch_extract ct o e stripped gt ex = Ok (merged, rex) ->
+  table_ok ct -> 1 <= z_max_strings_in_group o ->
+  batch_oracle_okb ct o e stripped gt ex = true ->
+  forall fs, In fs merged -> exists s, In s (ex_strings ex) /\ matches_frags ct false e fs s.
+Proof. exact batch_each_matches_some. Qed.
+Print Assumptions C13_each_matches_some.
 
 Example C13_capture_group_example : capture_group [40; 97; 41] = [40; 97; 41] /\ capture_group [97] = [40; 97; 41].
 Proof. split; reflexivity. Qed.
